@@ -4,6 +4,33 @@ import json, os, subprocess
 ROOT = os.path.dirname(os.path.dirname(os.path.abspath(__file__)))
 
 CLAIMED = {
+ "C01": dict(
+    category="proof",
+    text="Coq theorems (Props/C01.v, all closed under the global context) prove for ALL canonical finite operands, receiver "
+         "precisions, modes and aliasing flags that the model's Add, Sub, Mul, Quo, Set, SetPrec, Neg, Abs return exactly the "
+         "value prescribed by the rational specification Spec/Rounding.v: the exact result rounded once to p digits "
+         "(relation Rounds, proved functional), +-0 below 10^(MinExp-1), +-Inf when the rounded magnitude reaches 10^MaxExp, "
+         "IEEE sign for exact zero sums, and a canonical receiver. The core is round_correct (L3/RoundProofs.v): the model of "
+         "Decimal.round (rounding digit, sticky bit, word cut, carry into the exponent) meets the specification. The model "
+         "mirrors decimal.go statement by statement above the natural-number layer and is tied to the code on every run by "
+         "executing generated programs on the real library, the extracted model and vm_compute, plus an independent "
+         "exact-rational oracle on the implementation's outputs.",
+    design_ref="DESIGN.md section 6 C01",
+    note="Trusted: Coq kernel + vm_compute; hand-written model (decimal.go round/setExpAndRound/uadd/usub/umul/uquo/Set/SetPrec) "
+         "validated by differential runs; natural-number routines taken at value level (their correctness is C06/C07); "
+         "hypotheses: canonical operands (C08) and digit spans below 2^32-18 (uint32 digit arithmetic in round). No axioms.",
+    technique="Coq proof that the model meets a rational rounding specification + model/code correspondence check"),
+ "C02": dict(
+    category="proof",
+    text="Coq theorems (Props/C02.v, closed under the global context): for every result satisfying the C01 specification the "
+         "accuracy equals the sign of (stored value - exact value), infinities and underflowed zeros included, and is Exact "
+         "iff the stored value equals the exact one; instantiated for Add, Sub, Mul, Quo, Set, SetPrec for all canonical "
+         "finite operands. Tied to the code by the same correspondence run as C01 and an exact-rational oracle that "
+         "recomputes the accuracy of every implementation result.",
+    design_ref="DESIGN.md section 6 C02",
+    note="As C01. The setters SetInt/SetInt64/SetUint64/SetRat/SetMantExp/NewDecimal and Parse are covered by C14/C20/C12 "
+         "theorems where proved and by correspondence otherwise.",
+    technique="Coq proof (accuracy = sign of rounding error) + model/code correspondence check"),
  "C16": dict(
     category="proof",
     text="Coq theorems (Props/C16.v, closed under the global context) prove for ALL well-formed operands that the model of Cmp "
